@@ -159,7 +159,22 @@ class EffectivePotential(ABC):
 
             guess = guesses.getFieldPoint(i)
 
-            res = scipy.optimize.minimize(evaluateWrapper, guess, tol=tol)
+            # The tolerances of the minimiser are absolute (for the default method,
+            # on the gradient of Veff). When the natural size of that gradient,
+            # T^4 / (field scale), is smaller than 1 (potential given in small units)
+            # they are expressed relative to it, otherwise the minimiser can declare
+            # convergence at the initial guess. Never loosens the tolerance.
+            if self.areDerivativesConfigured():
+                fieldScale = np.max(
+                    np.abs(self.derivativeSettings.fieldValueVariationScale)
+                )
+            else:
+                fieldScale = abs(T[i])
+            tolerance = tol
+            if fieldScale > 0 and 0 < T[i] ** 4 / fieldScale < 1:
+                tolerance = (1e-5 if tol is None else tol) * T[i] ** 4 / fieldScale
+
+            res = scipy.optimize.minimize(evaluateWrapper, guess, tol=tolerance)
 
             resLocation[i] = res.x
             resValue[i] = res.fun
